@@ -81,7 +81,7 @@ func (in *Interp) doAssert(c *Term, label string) {
 		in.ex.AssumeAfterFailure(c)
 		return
 	}
-	if !in.ex.atFrontier() || in.ex.skipAsserts {
+	if !in.ex.atFrontier() || in.ex.skipAsserts() {
 		return
 	}
 	ok, m := in.ex.Holds(c)
